@@ -19,6 +19,17 @@ Theorem C08_roundtrip : forall cols ns text, (0 < cols)%nat ->
 Proof. exact encode_decode. Qed.
 Print Assumptions C08_roundtrip.
 
+(* rebuilding note data from its own notes reproduces the same text: the decoded beats (4 m R + 4 l) / R, brought to
+   lowest terms as Fraction keeps them, re-encode to the text they were read from - for every stream of reduced beats *)
+Theorem C08_canonical_fixpoint : forall cols ns text, (0 < cols)%nat ->
+  StronglySorted (fun a b => pos_cmp a b = Lt) ns ->
+  (forall n, In n ns -> is_note_char (ntype n) = true) ->
+  (forall n, In n ns -> Z.gcd (nb_n n) (nb_d n) = 1) ->
+  encode cols ns = Some text ->
+  exists ns', decode text = Some (cols, ns') /\ encode cols (map reduce_note ns') = Some text.
+Proof. exact canonical_fixpoint. Qed.
+Print Assumptions C08_canonical_fixpoint.
+
 (* the text is the canonical rendering of a grid of cells: every player up to the last one, every measure up
    to a player's last note (skipped ones blank: four rows of zeros), each measure's rows built by rows_c *)
 Theorem C08_text_is_a_grid : forall cols ns,
